@@ -4,11 +4,12 @@
 // obligation (or a Kani counterexample) into a concrete failing input on the real code.
 //
 // Scenario line (fields separated by '|'):
-//   id|METHOD|name=hex,name=hex|len|etag_hex or -|secs.nanos or -|ename=hex,..|script/script/..|extra_polls
+//   id|METHOD|name=hex,name=hex|len|etag_hex or -|secs.nanos or -|ename=hex,..|script/script/..|extra_polls[|rope]
+// `rope`: the entity's Data type is a non-contiguous `Buf` of 8-byte segments instead of `Bytes`
 // script: comma separated events for successive get_range calls: D<n> (n correct bytes), B<n> (n wrong bytes),
 //   E (error), N (end), P (pending), R (the rest of the range, correct).  After a script is exhausted the stream
 //   stays finished (End forever).  Missing scripts default to "R,N".
-use bytes::Bytes;
+use bytes::{Buf, Bytes};
 use futures_core::Stream;
 use http::header::{HeaderName, HeaderValue};
 use http_body::Body as _;
@@ -35,15 +36,54 @@ enum Ev {
     R,
 }
 
-struct ScriptStream {
+/// A legal but non-contiguous `Buf`: a queue of segments of at most 8 bytes (`chunk()` is only the first segment).
+struct Rope(std::collections::VecDeque<Bytes>);
+impl Buf for Rope {
+    fn remaining(&self) -> usize {
+        self.0.iter().map(|b| b.len()).sum()
+    }
+    fn chunk(&self) -> &[u8] {
+        self.0.front().map(|b| &b[..]).unwrap_or(&[])
+    }
+    fn advance(&mut self, mut cnt: usize) {
+        while cnt > 0 {
+            let f = self.0.front_mut().expect("advance past the end");
+            if cnt >= f.len() {
+                cnt -= f.len();
+                self.0.pop_front();
+            } else {
+                f.advance(cnt);
+                cnt = 0;
+            }
+        }
+    }
+}
+impl From<Vec<u8>> for Rope {
+    fn from(v: Vec<u8>) -> Rope {
+        Rope(v.chunks(8).map(Bytes::copy_from_slice).collect())
+    }
+}
+impl From<&'static [u8]> for Rope {
+    fn from(v: &'static [u8]) -> Rope {
+        Rope(v.chunks(8).map(Bytes::from_static).collect())
+    }
+}
+
+trait WData: Buf + From<Vec<u8>> + From<&'static [u8]> + Send + Sync + 'static {}
+impl WData for Bytes {}
+impl WData for Rope {}
+
+struct ScriptStream<D> {
     evs: Vec<Ev>,
     i: usize,
     pos: u64,
     end: u64,
+    _d: std::marker::PhantomData<D>,
 }
+impl<D> Unpin for ScriptStream<D> {}
 
-impl Stream for ScriptStream {
-    type Item = Result<Bytes, BoxError>;
+impl<D: WData> Stream for ScriptStream<D> {
+    type Item = Result<D, BoxError>;
     fn poll_next(mut self: Pin<&mut Self>, cx: &mut Context<'_>) -> Poll<Option<Self::Item>> {
         if self.i >= self.evs.len() {
             return Poll::Ready(None);
@@ -54,18 +94,18 @@ impl Stream for ScriptStream {
             Ev::D(n) => {
                 let v: Vec<u8> = (0..n).map(|k| content_byte(self.pos.wrapping_add(k))).collect();
                 self.pos = self.pos.wrapping_add(n);
-                Poll::Ready(Some(Ok(v.into())))
+                Poll::Ready(Some(Ok(D::from(v))))
             }
             Ev::B(n) => {
                 let v: Vec<u8> = (0..n).map(|k| !content_byte(self.pos.wrapping_add(k))).collect();
                 self.pos = self.pos.wrapping_add(n);
-                Poll::Ready(Some(Ok(v.into())))
+                Poll::Ready(Some(Ok(D::from(v))))
             }
             Ev::R => {
                 let n = self.end.saturating_sub(self.pos).min(1 << 16);
                 let v: Vec<u8> = (0..n).map(|k| content_byte(self.pos + k)).collect();
                 self.pos += n;
-                Poll::Ready(Some(Ok(v.into())))
+                Poll::Ready(Some(Ok(D::from(v))))
             }
             Ev::E => {
                 // the entity's stream stays finished once it has failed (proviso of C20)
@@ -84,7 +124,8 @@ impl Stream for ScriptStream {
     }
 }
 
-struct ScriptEntity {
+struct ScriptEntity<D> {
+    _d: std::marker::PhantomData<D>,
     len: u64,
     etag: Option<HeaderValue>,
     lm: Option<SystemTime>,
@@ -94,17 +135,17 @@ struct ScriptEntity {
     calls: Arc<Mutex<Vec<Range<u64>>>>,
 }
 
-impl http_serve::Entity for ScriptEntity {
-    type Data = Bytes;
+impl<D: WData> http_serve::Entity for ScriptEntity<D> {
+    type Data = D;
     type Error = BoxError;
     fn len(&self) -> u64 {
         self.len
     }
-    fn get_range(&self, range: Range<u64>) -> Pin<Box<dyn Stream<Item = Result<Bytes, BoxError>> + Send + Sync>> {
+    fn get_range(&self, range: Range<u64>) -> Pin<Box<dyn Stream<Item = Result<D, BoxError>> + Send + Sync>> {
         let k = self.ncalls.fetch_add(1, Ordering::SeqCst);
         self.calls.lock().unwrap().push(range.clone());
         let evs = self.scripts.get(k).cloned().unwrap_or_else(|| vec![Ev::R, Ev::N]);
-        Box::pin(ScriptStream { evs, i: 0, pos: range.start, end: range.end })
+        Box::pin(ScriptStream::<D> { evs, i: 0, pos: range.start, end: range.end, _d: std::marker::PhantomData })
     }
     fn add_headers(&self, h: &mut http::HeaderMap) {
         for (k, v) in &self.hdrs {
@@ -147,6 +188,14 @@ fn parse_script(s: &str) -> Vec<Ev> {
 }
 
 fn run_one(line: &str) -> String {
+    if line.split('|').nth(9) == Some("rope") {
+        run_one_with::<Rope>(line)
+    } else {
+        run_one_with::<Bytes>(line)
+    }
+}
+
+fn run_one_with<D: WData>(line: &str) -> String {
     let f: Vec<&str> = line.split('|').collect();
     let id = f[0];
     let method = http::Method::from_bytes(f[1].as_bytes()).unwrap();
@@ -173,7 +222,7 @@ fn run_one(line: &str) -> String {
     let scripts: Vec<Vec<Ev>> = if f[7].is_empty() { vec![] } else { f[7].split('/').map(parse_script).collect() };
     let extra: usize = f[8].parse().unwrap();
     let calls = Arc::new(Mutex::new(Vec::new()));
-    let ent = ScriptEntity { len, etag, lm, hdrs, scripts, ncalls: Arc::new(AtomicUsize::new(0)), calls: calls.clone() };
+    let ent = ScriptEntity::<D> { _d: std::marker::PhantomData, len, etag, lm, hdrs, scripts, ncalls: Arc::new(AtomicUsize::new(0)), calls: calls.clone() };
 
     let out = Arc::new(Mutex::new(String::new()));
     let out2 = out.clone();
@@ -197,8 +246,9 @@ fn run_one(line: &str) -> String {
             let r = Pin::new(&mut body).poll_frame(&mut cx);
             let ev = match r {
                 Poll::Ready(Some(Ok(fr))) => {
-                    let d = fr.into_data().unwrap();
-                    format!("D{}", hex(&d))
+                    let mut d = match fr.into_data() { Ok(d) => d, Err(_) => panic!("non-data frame") };
+                    let n = d.remaining();
+                    format!("D{}", hex(&d.copy_to_bytes(n)))
                 }
                 Poll::Ready(Some(Err(e))) => {
                     terminal_seen += 1;
